@@ -215,7 +215,14 @@ class PLt(Predicate):
         return self.x.p < self.y.p
 
 
-PREDICATE_FUNCS = {"p_eq": p_eq, "p_lt": p_lt, "val_eq": val_eq, "p_eq_nested": p_eq_nested, "p_eq_inner": p_eq_inner}
+@predicate
+def p_below(x, limit=2):
+    """a parameter with a default: called as p_below(x), p_below(x, 3), p_below(x, limit=3)"""
+    LOG.hit("p_below", getattr(x, "tag", x))
+    return x.p < limit
+
+
+PREDICATE_FUNCS = {"p_below": p_below, "p_eq": p_eq, "p_lt": p_lt, "val_eq": val_eq, "p_eq_nested": p_eq_nested, "p_eq_inner": p_eq_inner}
 PREDICATE_CLASSES = {"PEq": PEq, "PLt": PLt, "HasType": HasType}
 
 
